@@ -5,7 +5,7 @@ CONSTANTS
   MaxItems = 2
   AssignMax = 4
   ArgVals = 1
-  TypeIds = {"V_u8_u8", "V_u8_u16", "V_u8_u32", "V_u32_u8", "V_u64_u32", "V_u128_u8", "V_bool_u8", "V_ss3_u16", "V_i32_u16", "V_lei32_leu16", "V_u16_beu32", "V_ss5_u16", "V_se1_u8", "S_u8", "S_u16", "S_u32", "S_leu16"}
+  TypeIds = {"V_u8_u8", "V_u8_u16", "V_u8_u32", "V_u32_u8", "V_u64_u32", "V_u128_u8", "V_bool_u8", "V_ss3_u16", "V_i32_u16", "V_lei32_leu16", "V_u16_beu32", "V_ss5_u16", "V_se1_u8", "S_u8", "S_u16", "S_u32", "S_leu16", "V_u16_u64", "S_u64"}
   LMults = {0, 1, 2}
   BigInit = FALSE
   FollowUps = FALSE
